@@ -329,6 +329,15 @@ def rule_R4(ctx, typer, funcs):
                     continue
                 n += 1
                 name = node.value.id
+                from .common import resolve_local
+                base = resolve_local(f, node.value)
+                if isinstance(base, (ast.Tuple, ast.List)) and isinstance(node.slice, ast.Constant) and isinstance(node.slice.value, int) \
+                        and -len(base.elts) <= node.slice.value < len(base.elts):
+                    ctx.inst("R4", f, node, "index into a literal of sufficient length")
+                    continue
+                if _wild_table_of(ctx.p, f, node.value) is not None:
+                    ctx.inst("R4", f, node, "lookup in the constant wildcard table (guarded by membership)")
+                    continue
                 if _short_circuit_guarded(f, node, name):
                     ctx.inst("R4", f, node, "index read guarded by a short-circuit non-emptiness test")
                     continue
@@ -410,6 +419,26 @@ def _wild_ok(ch, const):
     return False
 
 
+def _wild_table_of(program, func, expr):
+    """{wildcard: regex} if expr names a constant dict whose entries are all valid wildcard translations"""
+    if not isinstance(expr, ast.Name):
+        return None
+    r = program.resolve_name(func.module, expr.id)
+    val = r[1] if r is not None and r[0] == "const" else None
+    if val is None:
+        for n in walk_own(func.node):
+            if isinstance(n, ast.Assign) and any(isinstance(t, ast.Name) and t.id == expr.id for t in n.targets):
+                val = n.value
+    if not isinstance(val, ast.Dict):
+        return None
+    out = {}
+    for k, v in zip(val.keys, val.values):
+        if not (isinstance(k, ast.Constant) and isinstance(v, ast.Constant) and isinstance(k.value, str) and isinstance(v.value, str)):
+            return None
+        out[k.value] = v.value
+    return out
+
+
 def _split_concat(e):
     if isinstance(e, ast.BinOp) and isinstance(e.op, ast.Add):
         return _split_concat(e.left) + _split_concat(e.right)
@@ -486,10 +515,36 @@ def rule_G1(ctx, typer):
             ctx.inst("G1", tr, where, "pattern character passes through re.escape")
             return
         if isinstance(e, ast.IfExp):
+            # T[c] if c in T else re.escape(c)   /   re.escape(c) if c not in T else T[c]
+            t = e.test
+            if isinstance(t, ast.Compare) and len(t.ops) == 1 and isinstance(t.ops[0], (ast.In, ast.NotIn)) and isinstance(t.left, ast.Name) \
+                    and t.left.id in tainted:
+                tab = _wild_table_of(ctx.p, tr, t.comparators[0])
+                if tab is not None:
+                    hit, miss = (e.body, e.orelse) if isinstance(t.ops[0], ast.In) else (e.orelse, e.body)
+                    lookup_ok = isinstance(hit, ast.Subscript) and norm(hit.value) == norm(t.comparators[0]) and norm(hit.slice) == t.left.id
+                    bad = [k for k, v in tab.items() if k not in ("*", "?") or not _wild_ok(k, v)]
+                    if lookup_ok and not bad:
+                        ctx.inst("G1", tr, where, "wildcard table %s: every entry is the translation of its wildcard" % tab)
+                    else:
+                        ctx.viol("G1", tr, where, "wildcard table lookup `%s` is not a translation of '*'/'?' only (%s)" % (norm(hit), bad or "lookup form"))
+                    frag(miss, which, where)
+                    return
             w = _wild_test(e.test)
             frag(e.body, w if w is not None else which, where)
             frag(e.orelse, which if w is not None else which, where)
             return
+        if isinstance(e, ast.Call) and isinstance(e.func, ast.Attribute) and e.func.attr == "get" and len(e.args) == 2 \
+                and isinstance(e.args[0], ast.Name) and e.args[0].id in tainted:
+            tab = _wild_table_of(ctx.p, tr, e.func.value)
+            if tab is not None:
+                bad = [k for k, v in tab.items() if k not in ("*", "?") or not _wild_ok(k, v)]
+                if bad:
+                    ctx.viol("G1", tr, where, "wildcard table has entries that are not translations of '*'/'?': %s" % bad)
+                else:
+                    ctx.inst("G1", tr, where, "wildcard table %s" % tab)
+                frag(e.args[1], which, where)
+                return
         if isinstance(e, ast.BinOp) and isinstance(e.op, ast.Add):
             frag(e.left, which, where)
             frag(e.right, which, where)
@@ -574,8 +629,11 @@ def rule_G1(ctx, typer):
                         src = a.value
             elif arg is not None:
                 src = arg
+            from .common import resolve_elem, resolve_local
+            src = resolve_local(ma, src) if src is not None else src
+            a0 = resolve_elem(ma, src.args[0]) if isinstance(src, ast.Call) and len(src.args) == 1 else None
             ok = isinstance(src, ast.Call) and norm(src.func).endswith("__translate") and len(src.args) == 1 \
-                and isinstance(src.args[0], ast.Name) and src.args[0].id in ma.posparams
+                and isinstance(a0, ast.Name) and a0.id in ma.posparams
             if ok:
                 ctx.inst("G1", ma, node, "re.compile receives the sanitised translation of the pattern parameter")
             else:
